@@ -354,9 +354,9 @@ ASSUMPTIONS_COMMON = [
 ]
 
 NOT_DECIDED = {
-    "C06": "that `build` emits balanced programs (static half); conformance of SimpleGarnishData's stack methods to the trait contract (Basic's are proved in unit V2); iterate_concatenation_mut* / concatenation_len / type_cast are assumed contracts",
-    "C07": "everything not under contract: lexer, parser, builder, conversions, display, optimise/clone, Basic's end_list, SimpleGarnishData internals; type_cast (assumed)",
-    "C08": "type_cast's catch-all arm (assumed contract); the data implementations' own host plumbing",
+    "C06": "that `build` emits balanced programs (static half); conformance of SimpleGarnishData's stack methods to the trait contract (Basic's are proved in unit V2); iterate_concatenation_mut* / concatenation_len / list_from_char_list / list_from_byte_list are assumed contracts",
+    "C07": "everything not under contract: lexer, parser, builder, conversions, display, optimise/clone, Basic's end_list, SimpleGarnishData internals",
+    "C08": "two closure statements of type_cast (Concatenation -> List) are cut out and assumed; the data implementations' own host plumbing",
     "C09": "f64::powf and f64 % f64 (libm, unmodelled by CBMC); float * and / exactness and in-range float // (tier deep, not registered); integer ** exactness only in the thorough tier",
     "C10": "that `build` places right operands / arms behind the jumps; evaluation counts over whole programs",
     "C11": "slice operands (frame only); that the data implementations' iterators yield the sequences the trait contract names; termination of the work list; equivalence-relation laws of the unbounded relation are by reading of `deq`, not a machine-checked lemma",
